@@ -28,11 +28,19 @@ struct CallCtx
 
 void run_call(const C01Call &c, bool inner, int api, int itype, long long count, int block);
 
+struct BodyFailure
+{
+};
+
 inline void visit(CallCtx &cx, long long idx)
 {
   if (c01_body(cx.h, idx))
     cx.slots[idx] = 7000 + (int)(idx & 0xfff);
   const C01Call &c = *cx.c;
+  if (!cx.inner && c.throw_at >= 0 && idx == c.throw_at) {
+    c01_body_exit(cx.h);
+    throw BodyFailure();
+  }
   if (!cx.inner) {
     if (c.cost && c.cost_mod && idx % c.cost_mod == 0)
       sim_work((uint32_t)c.cost);
@@ -107,6 +115,8 @@ void run_call(const C01Call &c, bool inner, int api, int itype, long long count,
   cx.slots = new int[(size_t)nslots]();
   sim_watch(cx.slots, (size_t)(nslots > 1024 ? 1024 : nslots) * sizeof(int), "slots");
   cx.h = c01_call_begin(api, itype, count, block, inner);
+  bool aborted = false;
+  try {
   if (api == C01_FOREACH_CONT || api == C01_FOREACH_IT) {
     do_foreach(cx, api == C01_FOREACH_IT);
   } else {
@@ -121,10 +131,17 @@ void run_call(const C01Call &c, bool inner, int api, int itype, long long count,
     default: dispatch<size_t>(cx, api, block); break;
     }
   }
-  c01_call_end(cx.h);
-  // all effects of the invocations are visible to the caller now
-  for (long long i = 0; i < count; i++)
-    c01_slot_check(cx.h, i, cx.slots[i]);
+  } catch (const BodyFailure &) {
+    aborted = true;  // the application handles the failure of its own body and carries on
+  }
+  if (aborted) {
+    c01_call_aborted(cx.h);
+  } else {
+    c01_call_end(cx.h);
+    // all effects of the invocations are visible to the caller now
+    for (long long i = 0; i < count; i++)
+      c01_slot_check(cx.h, i, cx.slots[i]);
+  }
   sim_unwatch(cx.slots);
   delete[] cx.slots;
 }
